@@ -18,8 +18,8 @@ for name, what in [("data_1", "data line, 1 byte"), ("data_4", "data line, 4 byt
                 desc="line written by the encoder decodes to the same line/band, consuming exactly the written length", inputs=what + ", all byte values", bound="unwind 12"))
 hs.append(H(P + "c29_ed_empty_refused", timeout=300, mem=6, covers=1, extra_args=STUB, desc="every encoder refuses an empty payload and writes nothing", inputs="4 encoders", bound="-"))
 hs.append(H(P + "c29_ed_control", timeout=300, mem=6, covers=1, extra_args=STUB, desc="flush/delim/response-end decode to themselves", inputs="3 control lines", bound="-"))
-hs.append(H(P + "c29_encode_limit", timeout=600, mem=8, covers=2, extra_args=STUB, desc="payload of 65516 bytes is written as a 65520-byte line, 65517 is refused",
-            inputs="concrete payloads at the boundary", bound="-"))
+hs.append(H(P + "c29_encode_limit", timeout=600, mem=8, covers=2, extra_args=STUB, desc="data/text/ERR/band encoders: the largest admissible line (65516 data bytes incl. what the encoder adds) is written as 65520 bytes, one more byte is refused",
+            inputs="concrete payloads at the boundary, encoder symbolic", bound="-"))
 SPEC = {
     "id": "C29",
     "crate": "h-core",
